@@ -109,7 +109,7 @@ func execTapeProc(bin, prop, tier string, tape []uint32, single bool) (int, stri
 	go func() { done <- cmd.Wait() }()
 	select {
 	case <-done:
-	case <-time.After(120 * time.Second):
+	case <-time.After(300 * time.Second):
 		cmd.Process.Kill()
 		<-done
 		return 2, "timeout", nil
